@@ -341,8 +341,6 @@ def match_known(known, pid, v):
     for kf in known:
         if kf.get("status") == "fixed":
             continue
-        if pid not in kf.get("properties", []):
-            continue
         m = kf["matcher"]
         ztags = (v.get("extra") or {}).get("zone_tags", [])
         if "zone_tag" in m and m["zone_tag"] not in ztags:
